@@ -127,6 +127,7 @@ type c16Case struct {
 	thrPan  atomic.Value
 	ready   bool
 	stuck   bool // Status does not answer any more
+	hung    bool // a command did not return
 	pending chan string // an inject that has not returned (yet)
 	sharedErp *interpreter.ECALRuntimeProvider
 	viaCLI  bool // commands go through CLIDebugInterpreter.Handle
@@ -463,7 +464,24 @@ func (c *c16Case) end() {
 	c.mu.Lock()
 	close(c.gate)
 	c.mu.Unlock()
-	c.dbg.StopThreads(0)
+	// StopThreads takes the debugger's lock: with a lock left behind by a command (or kept by a
+	// waiting thread) it would never return — bounded, the goroutines of such a case are abandoned
+	stopped := make(chan struct{})
+	go func() {
+		defer func() { recover() }()
+		c.dbg.StopThreads(0)
+		close(stopped)
+	}()
+	bound := c16CmdTimeout()
+	if c.stuck || c.hung {
+		bound = 200 * time.Millisecond
+	}
+	select {
+	case <-stopped:
+	case <-time.After(bound):
+		CountRun("case-abandoned-with-lock-held")
+		return
+	}
 	c.mu.Lock()
 	ds := make([]chan struct{}, 0)
 	for _, d := range c.done {
@@ -625,6 +643,7 @@ func (c *c16Case) command(line string) string {
 		return r
 	case <-time.After(c16CmdTimeout()):
 		atomic.AddInt32(&c16Hangs, 1)
+		c.hung = true
 		return "HANG"
 	}
 }
@@ -989,7 +1008,7 @@ func c16Gen(g *Gen) {
 		select {
 		case r := <-ch:
 			o0, steps, res = r.o0, r.steps, r.res
-		case <-time.After(150 * time.Second):
+		case <-time.After(90 * time.Second):
 			g.Count("record-timeout")
 			o0 = "?"
 		}
